@@ -185,13 +185,37 @@ def geom_term(g):
         return g.term
     if isinstance(g, SVal):
         return g.z
+    if z3.is_expr(getattr(g, 'z', None)) and g.z.sort() == GeomSort:
+        return g.z
     raise Unsupported(f'not a geometry: {g!r}')
+
+
+@model
+class UnionOf:
+    """shapely.unary_union(array of geometries): the union, as a token that remembers its operands; ``.bounds`` is its bounding box (a
+    token as well).  What the union / the box are numerically is carried by the bounded stand-in."""
+    _pyvc_model_class = True
+
+    def __init__(self, geoms):
+        self.geoms = geoms
+
+    @property
+    def bounds(self):
+        return BoundsOf(self)
+
+
+class BoundsOf:
+    _pyvc_model_class = True
+
+    def __init__(self, geom):
+        self.geom = geom
 
 
 @model
 def unary_union(geoms):
     used('SH-UNARY-UNION')
-    raise Unsupported('shapely.unary_union (carried by the bounded stand-in)')
+    core.ctx().event('unary_union', geoms)
+    return UnionOf(geoms)
 
 
 @model
@@ -324,6 +348,93 @@ def intersection_of(poly_term, other):
     return g
 
 
+def _term_of(g):
+    t = getattr(g, 'term', None)
+    if t is None:
+        t = getattr(g, 'z', None)
+    if t is None:
+        raise Unsupported(f'not a geometry: {g!r}')
+    return t
+
+
+@model
+def get_num_coordinates(geoms):
+    """SH-NUM-COORDINATES: element-wise number of coordinates; 0 for None; a polygon's closed ring counts its first vertex twice
+    (>= 4 for a polygon)"""
+    used('SH-NUM-COORDINATES')
+    a = asarray(geoms).frozen()
+    f = _fn('num_coordinates', GeomSort, z3.IntSort())
+
+    def count(g):
+        c = core.ctx()
+        t = _term_of(g)
+        c.assume(f(t) >= (4 if getattr(g, '_geom_kind', lambda n: False)('Polygon') is True else 0))
+        return mk_int(f(t))
+
+    def at(i):
+        g = a.fn(i)
+        if g is None:
+            return 0
+        if isinstance(g, Maybe):
+            return s_ite(g.none, 0, count(g.val))
+        return count(g)
+    return NDArray(a.shape, at, np.INT64)
+
+
+@model
+def convex_hull(geoms):
+    """SH-CONVEX-HULL: element-wise convex hull (a geometry term hull(g)); None stays None"""
+    used('SH-CONVEX-HULL')
+    a = asarray(geoms).frozen()
+    f = _fn('convex_hull', GeomSort, GeomSort)
+
+    def hull(g):
+        h = AbsGeom(f(_term_of(g)))
+        h.hull_of = g
+        return h
+
+    def at(i):
+        g = a.fn(i)
+        if g is None:
+            return None
+        if isinstance(g, Maybe):
+            return Maybe.ite(g.none, None, hull(g.val))
+        return hull(g)
+    return NDArray(a.shape, at, np.OBJECT)
+
+
+@model
+def get_coordinates(geoms, **kw):
+    """SH-GET-COORDINATES (opaque here): all coordinates of all geometries as an (M, 2) array"""
+    used('SH-GET-COORDINATES')
+    from ..api import sym_array, sym_size
+    c = core.ctx()
+    m = sym_size(c, 'ncoords', 0)
+    out = sym_array(c, 'allcoords', (m, 2), 'real')
+    out.coordinates_of = geoms
+    return out
+
+
+@model
+def points(coords, y=None, **kw):
+    """SH-POINTS: shapely.points(array of shape (n, 2)) = n point geometries, row p at (x_p, y_p); the point is a function of its two
+    coordinates (point_xy)."""
+    used('SH-POINTS')
+    if y is not None:
+        raise Unsupported('shapely.points(x, y)')
+    a = asarray(coords)
+    if a.ndim != 2 or not isinstance(a.shape[0], int) or a.shape[1] != 2:
+        raise Unsupported('shapely.points of something that is not a concrete number of (x, y) rows')
+    f = _fn('point_xy', z3.RealSort(), z3.RealSort(), GeomSort)
+
+    def num(v):
+        return core.zreal(v.val if hasattr(v, 'val') else v)
+    pts = [Geom(f(num(a.fn((p, 0))), num(a.fn((p, 1))))) for p in range(a.shape[0])]
+    out = NDArray((len(pts),), lambda i: pts[i[0]] if not is_sym(i[0]) else (_ for _ in ()).throw(Unsupported('symbolic index into a point array')), np.OBJECT)
+    out.point_list = pts
+    return out
+
+
 def _geom_class(name, construct=None):
     def _isinstance(x):
         f = getattr(x, '_geom_kind', None)
@@ -374,6 +485,10 @@ class _StrtreeMod:
 class ShapelyModule:
     _pyvc_model_class = True
     polygons = staticmethod(polygons)
+    points = staticmethod(points)
+    get_num_coordinates = staticmethod(get_num_coordinates)
+    convex_hull = staticmethod(convex_hull)
+    get_coordinates = staticmethod(get_coordinates)
     is_valid = staticmethod(is_valid)
     unary_union = staticmethod(unary_union)
     box = staticmethod(box)
